@@ -417,30 +417,35 @@ def items_for(prop, tier):
         # 4 nodes, <=4 edges, unfiltered node orders: cheap and needed for "third child" situations
         for fl in FLAVOURS:
             items += scen_order(fl, 4, 4, ('none',), modes=('nodes',), shapes=simple_sequences(4, 4) if tier == 'quick' else None)
-    if tier == 'thorough' and prop in ('C04', 'C05', 'C09', 'C10'):
-        s55 = simple_sequences(5, 5)
-        s45f = simple_sequences(4, 4)
-        for fl in FLAVOURS:
-            if prop == 'C04':
-                items += scen_target(fl, 'bfs', 4, 4, ('none',), modes=('path',))
-                items += scen_target(fl, 'bfs', 5, 5, ('none',), modes=('path',), shapes=s55)
-                items += scen_target(fl, 'bfs', 4, 5, ('filter',), modes=('path',), shapes=s45f)
-                if fl in DIRECTED:
-                    items += single_reject(scen_target(fl, 'bfs', 4, 5, ('none',), modes=('path',), shapes=[q for q in simple_sequences(4, 5) if len(q) == 5]))
-            elif prop == 'C05':
-                items += scen_target(fl, 'dfs', 4, 4, ('none',), modes=('path',))
-                items += scen_target(fl, 'dfs', 5, 5, ('none',), modes=('path',), shapes=s55)
-            elif prop == 'C09':
-                for alg in ('bfs', 'dfs'):
-                    items += scen_cycle(fl, alg, 4, 4, ('none',))
-                items += scen_cycle(fl, 'bfs', 5, 5, ('none',), shapes=s55)
-                if fl in DIRECTED:
-                    items += scen_cycle(fl, 'bfs', 4, 5, ('filter',), shapes=simple_sequences(4, 5))
-                    for alg in ('bfs', 'dfs'):
-                        items += single_reject(scen_cycle(fl, alg, 4, 6, ('none',), shapes=[q for q in simple_sequences(4, 6) if len(q) >= 5]))
-            elif prop == 'C10':
-                items += scen_order(fl, 5, 5, ('none',), modes=('nodes',), shapes=s55)
     return items
+
+
+def big_items_for(prop, tier):
+    """thorough-tier families that are too large to materialise: a generator, streamed to the workers"""
+    if tier != 'thorough' or prop not in ('C04', 'C05', 'C09', 'C10'):
+        return
+    s55 = simple_sequences(5, 5)
+    s45f = simple_sequences(4, 4)
+    for fl in FLAVOURS:
+        if prop == 'C04':
+            yield from scen_target(fl, 'bfs', 4, 4, ('none',), modes=('path',))
+            yield from scen_target(fl, 'bfs', 5, 5, ('none',), modes=('path',), shapes=s55)
+            yield from scen_target(fl, 'bfs', 4, 5, ('filter',), modes=('path',), shapes=s45f)
+            if fl in DIRECTED:
+                yield from single_reject(scen_target(fl, 'bfs', 4, 5, ('none',), modes=('path',), shapes=[q for q in simple_sequences(4, 5) if len(q) == 5]))
+        elif prop == 'C05':
+            yield from scen_target(fl, 'dfs', 4, 4, ('none',), modes=('path',))
+            yield from scen_target(fl, 'dfs', 5, 5, ('none',), modes=('path',), shapes=s55)
+        elif prop == 'C09':
+            for alg in ('bfs', 'dfs'):
+                yield from scen_cycle(fl, alg, 4, 4, ('none',))
+            yield from scen_cycle(fl, 'bfs', 5, 5, ('none',), shapes=s55)
+            if fl in DIRECTED:
+                yield from scen_cycle(fl, 'bfs', 4, 5, ('filter',), shapes=simple_sequences(4, 5))
+                for alg in ('bfs', 'dfs'):
+                    yield from single_reject(scen_cycle(fl, alg, 4, 6, ('none',), shapes=[q for q in simple_sequences(4, 6) if len(q) >= 5]))
+        elif prop == 'C10':
+            yield from scen_order(fl, 5, 5, ('none',), modes=('nodes',), shapes=s55)
 
 
 # ------------------------------------------------------------------ check driver
@@ -471,4 +476,4 @@ def run(prop, tier, seed):
                      'rustc MIR dump is what gets compiled', 'filters are pure functions of (source key, target key, value)',
                      'keys are distinct concrete integers; relabelling invariance'],
         rule='work item = (canonical connect sequence, root, target, configuration); executor paths split on filter verdicts and value comparisons; oracles (reachability, BFS distance, DFS order recognisers) run on the graph read back through the node iterators',
-        expected_cells=cells, pre_finish=pre_finish)
+        expected_cells=cells, pre_finish=pre_finish, stream=(lambda: big_items_for(prop, tier)) if tier == 'thorough' else None)
